@@ -251,7 +251,7 @@ def pyvc_close(lp, snaps, name, cur):
     if not isinstance(lp, _GenericIter):
         return cur
     if name not in snaps:
-        raise paths.OutOfReach(f"accumulator {name} undefined before a generic loop")
+        return cur      # loop-local name (first bound inside the body): not an accumulator
     acc0 = snaps[name]
     d = lp.dim
 
